@@ -1,0 +1,30 @@
+//go:build verif
+
+package ptracer
+
+import (
+	"fmt"
+	"sync"
+)
+
+var (
+	verifMu     sync.Mutex
+	verifTraces = map[int][]string{}
+)
+
+// verifEvent records what the tracer saw (wait) and what it asked the kernel
+// to do, per traced process group.
+func verifEvent(pgid int, kind string, pid int, arg int) {
+	verifMu.Lock()
+	verifTraces[pgid] = append(verifTraces[pgid], fmt.Sprintf("%s %d %d", kind, pid, arg))
+	verifMu.Unlock()
+}
+
+// VerifTakeTraces returns and clears the logs of all tracers.
+func VerifTakeTraces() map[int][]string {
+	verifMu.Lock()
+	defer verifMu.Unlock()
+	r := verifTraces
+	verifTraces = map[int][]string{}
+	return r
+}
